@@ -371,9 +371,20 @@ converter.register_unstructure_hook({class_name}, _unstructure_{class_name.lower
                 if enum_schema and enum_schema.enum:
                     # This is an enum field - convert default value to enum member access
                     # e.g., "default" -> JobPriorityEnum.DEFAULT
-                    default_str = str(ps.default)
-                    # Convert the value to the enum member name (e.g., "default" -> "DEFAULT")
-                    enum_member_name = default_str.upper().replace("-", "_").replace(" ", "_")
+                    # Derive the member name exactly as EnumGenerator does for the enum class itself
+                    # (e.g., "default" -> "DEFAULT", "1st" -> "MEMBER_1ST", 1 -> "VALUE_1")
+                    from .enum_generator import EnumGenerator
+
+                    enum_generator = EnumGenerator(self.renderer)
+                    if enum_schema.type == "integer":
+                        try:
+                            enum_member_name = enum_generator._generate_member_name_for_integer_enum(
+                                ps.default, int(ps.default)
+                            )
+                        except (TypeError, ValueError):
+                            return "None"
+                    else:
+                        enum_member_name = enum_generator._generate_member_name_for_string_enum(str(ps.default))
                     return f"{ps.name}.{enum_member_name}"
 
             if isinstance(ps.default, str):
